@@ -204,6 +204,10 @@ func (t *WeightedMerkleTrie) delete(node Node, prefix, key []byte) (uint64, Node
 			return change, n, nil
 		}
 	case *routingNode:
+		if len(key) == 0 {
+			// a branch below the full key depth (only in a trie imported from a crafted export)
+			return 0, n, ErrNotFound
+		}
 		change, newNode, err := t.delete(n.Children[key[0]], append(prefix, key[0]), key[1:])
 		if err != nil {
 			return 0, nil, err
